@@ -64,6 +64,19 @@ CHECKS = {
              "simulator supplies the histories (restart, reprovision) and hostile labels/issuers/class defaults.",
         note="AppWallet encryption cannot run (no 'cryptography' package on this image) and is not claimed. Labels/issuers without ':' and without leading/trailing blanks.",
         design_ref="DESIGN.md section 4, C15"),
+    "C19": dict(
+        level="exploration",
+        technique="deterministic simulation of real threads: seeded baton-passing scheduler pre-empting at sys.settrace line/opcode events (sticky walk, PCT, hot-spot, uniform), fork-per-run fresh first-use state, cooperative locks; per-thread outcome vs single-thread outcome",
+        text="Each run forks a process in which nothing has been used yet, builds one first-use object (LazyCryptContext with/without "
+             "onload, a shipped preset, a multi-backend hasher, a lazy base64 engine, an unloaded registry name, a context's record "
+             "caches, the digest-info cache) or an initialised shared context with a non-reentrant crypt(3) model, and lets 2-3 real "
+             "threads make their first calls while a seeded scheduler decides at every source line of /repo code who runs next. Every "
+             "lock object the library keeps is replaced by a cooperative lock with the same semantics, so parked threads never block "
+             "the simulator and deadlocks are detected. Each thread's outcomes must equal those of the same calls made by one thread in "
+             "another fresh process. A failing schedule is kept as its switch list, minimised, and replays bit-identically.",
+        note="Samples schedules (PCT depth <=3, sticky p 0.005-0.3, hot-spot plans on 17 anchor functions); pre-emption between source lines "
+             "(bytecodes in hot functions in the thorough tier) under the GIL build; code in C and module-level code of imports is not interleaved.",
+        design_ref="DESIGN.md sections 3.4 and 4, C19"),
 }
 
 
